@@ -81,3 +81,10 @@ check("C01", "exploration", "runtime trace-specification monitor + executable mo
       "jsonlog sample format and a scripted handler producing every legal-but-nasty step.",
       "Classes derive from public predicates only. A handler never returns nil RawRecord with nil error.",
       "DESIGN.md section 3 C01")
+
+check("C05", "exploration", "runtime differential monitor: real edi/csv2/fixedlength2 readers vs an independent recursive reference matcher, unique unit ids, conservation check",
+      "Held on every (hierarchy, unit sequence) pair (quick 1e5, thorough >4e6 incl. every sequence of length <=5 over 4 names for a third of the hierarchies): "
+      "delivered target trees, their ancestor chains and the terminal result equal the greedy non-backtracking matcher's; no unit delivered twice; inputs with "
+      "and without final terminator. One recorded known finding (edi top-level hierarchy starts over).",
+      "The reference matcher is the documented semantics written recursively. max=0 not generated.",
+      "DESIGN.md section 3 C05")
